@@ -497,19 +497,31 @@ func (queue *Queue) Purge() (length uint64) {
 
 // Delete cancel consumers and delete its messages from storage
 func (queue *Queue) Delete(ifUnused bool, ifEmpty bool) (uint64, error) {
-	length, consumers, err := queue.deactivate(ifUnused, ifEmpty)
+	length, cancel, err := queue.DeleteDeferred(ifUnused, ifEmpty)
 	if err != nil {
 		return 0, err
+	}
+	cancel()
+	return length, nil
+}
+
+// DeleteDeferred deletes the queue's messages and takes it out of service like Delete, but leaves the cancelling of
+// its consumers to the caller: cancel waits for a consumer that is in the middle of a delivery, and a delivery to a
+// client that does not read its socket never ends - the caller must not hold a lock others need while it runs.
+func (queue *Queue) DeleteDeferred(ifUnused bool, ifEmpty bool) (uint64, func(), error) {
+	length, consumers, err := queue.deactivate(ifUnused, ifEmpty)
+	if err != nil {
+		return 0, nil, err
 	}
 
 	// consumers are cancelled with no queue lock held: Cancel -> Stop -> RemoveConsumer
 	// takes cmrLock again, and a consumer in the middle of a pop holds its status lock
 	// while waiting for actLock
-	for _, cmr := range consumers {
-		cmr.Cancel()
-	}
-
-	return length, nil
+	return length, func() {
+		for _, cmr := range consumers {
+			cmr.Cancel()
+		}
+	}, nil
 }
 
 func (queue *Queue) deactivate(ifUnused bool, ifEmpty bool) (uint64, []interfaces.Consumer, error) {
